@@ -145,7 +145,9 @@ func init() {
 				c19Forgot = ""
 			}
 		}()
-		switch part := c.Choose(6); part {
+		switch part := c.Choose(7); part {
+		case 6: // namespaces the program sets on the parser, on commands and on groups through their public fields
+			c19ApiNamespaces(c)
 		case 0: // every short tag string over the scanner-relevant bytes
 			maxLen := 8
 			if c.Thorough {
@@ -679,7 +681,7 @@ func init() {
 			"(v) every pair of placements {top, plain subgroup, namespaced, doubly namespaced} x {same name, near miss, collision created by namespaces} x {long, short incl. non-ASCII} x {declared through NewParser, on a subcommand's struct, added with (*Group).AddGroup to an existing group, NewNamedParser with NamespaceDelimiter \"-\" set before AddGroup}; (malformed tag strings of <= 5 bytes also on a field of a positional-args struct; every declaration whose first field's tag has an even length is followed by a successful AddGroup before the first use: a setup error must survive it); (vi) default tags on bool / []bool / *bool / []*bool / **bool / *[]bool / func() vs string types; " +
 			"oracle: exported model fields echo the attributes exactly, malformed tags => ErrTag, long short name => ErrShortNameTooLong, bool default => ErrInvalidTag, colliding names => ErrDuplicatedFlag, never a panic; distinct = distinct (part, cell, error class)",
 		Assumptions:  []string{"keys containing control characters or backslashes, and empty keys, are grey (no panic, any error typed)", "single-valued keys are repeated with the same value only", "falsy spellings false/no/0 do not set a mark on options (pinned by the repository's tests)"},
-		RequiredHits: []string{"declaration-error-asked-twice", "tag-reject", "tag-accept", "tag-grey", "echo:default", "echo:choice", "mark:required", "short-too-long", "structure", "duplicate", "near-collision", "bool-default"},
+		RequiredHits: []string{"declaration-error-asked-twice", "api-namespaces", "tag-reject", "tag-accept", "tag-grey", "echo:default", "echo:choice", "mark:required", "short-too-long", "structure", "duplicate", "near-collision", "bool-default"},
 		Bound:        [2]string{"tag strings <= 8", "tag strings <= 9"},
 		BudgetS:      [2]int{170, 1500},
 	})
@@ -694,4 +696,84 @@ func panicClass(p interface{}) string {
 		s = s[:40]
 	}
 	return s
+}
+
+// c19ApiNamespaces: group namespaces are part of the public model whichever way they were given. The parser, a command,
+// its subcommand and a group of that subcommand get a namespace through their exported Namespace field (any subset of the
+// four, two delimiters); every option's LongNameWithNamespace is the join, outermost first, of the namespaces around it.
+func c19ApiNamespaces(c *explore.Ctx) {
+	mask := c.Choose(16)
+	delim := []string{".", "::"}[c.Choose(2)]
+	type opts struct {
+		X bool `long:"xopt"`
+	}
+	p := flags.NewNamedParser("app", flags.None)
+	p.NamespaceDelimiter = delim
+	top, err := p.AddGroup("Top", "", &opts{})
+	if err != nil {
+		c.Fail("setup-error", err.Error())
+		return
+	}
+	add, err := p.AddCommand("add", "", "", &opts{})
+	if err != nil {
+		c.Fail("setup-error", err.Error())
+		return
+	}
+	sub, err := add.AddCommand("sub", "", "", &opts{})
+	if err != nil {
+		c.Fail("setup-error", err.Error())
+		return
+	}
+	grp, err := sub.AddGroup("Grp", "", &struct {
+		Y bool `long:"yopt"`
+	}{})
+	if err != nil {
+		c.Fail("setup-error", err.Error())
+		return
+	}
+	ns := []string{"", "", "", ""}
+	if mask&1 != 0 {
+		p.Namespace, ns[0] = "pn", "pn"
+	}
+	if mask&2 != 0 {
+		add.Namespace, ns[1] = "an", "an"
+	}
+	if mask&4 != 0 {
+		sub.Namespace, ns[2] = "sn", "sn"
+	}
+	if mask&8 != 0 {
+		grp.Namespace, ns[3] = "gn", "gn"
+	}
+	join := func(parts ...string) string {
+		var out []string
+		for _, s := range parts {
+			if s != "" {
+				out = append(out, s)
+			}
+		}
+		return strings.Join(out, delim)
+	}
+	c.Describe(func() interface{} {
+		return map[string]interface{}{"part": "namespaces set through the API", "parser/add/sub/group": ns, "delimiter": delim}
+	})
+	c.Hit("api-namespaces")
+	check := func(where string, o *flags.Option, want string) {
+		if o == nil {
+			c.Fail("attribute-misread|api-namespace|option-not-found", where)
+			return
+		}
+		if got := o.LongNameWithNamespace(); got != want {
+			c.Fail("attribute-misread|api-namespace", map[string]interface{}{"option_of": where, "want": want, "got": got})
+		}
+	}
+	first := func(g *flags.Group) *flags.Option {
+		if g == nil || len(g.Options()) == 0 {
+			return nil
+		}
+		return g.Options()[0]
+	}
+	check("parser group", first(top), join(ns[0], "xopt"))
+	check("command add", first(add.Group), join(ns[0], ns[1], "xopt"))
+	check("subcommand sub", first(sub.Group), join(ns[0], ns[1], ns[2], "xopt"))
+	check("group of sub", first(grp), join(ns[0], ns[1], ns[2], ns[3], "yopt"))
 }
